@@ -727,6 +727,10 @@ func (sel *Selection) GetValue(pathOrIdent string) (val.Value, error) {
 	if err != nil {
 		return nil, err
 	}
+	if s == nil {
+		// a container or list item on the way is not there: nor is the value
+		return nil, nil
+	}
 	return s.Get()
 }
 
